@@ -3,18 +3,18 @@ import DuneVerif.Proofs.C06Pair
 namespace DV.C06
 variable {α : Type}
 
-theorem find_peer_trackers (h : Handle α) (fwd : Bool) (q f : Nat) (pe : IfaceEntry)
-    (hfix : h.fixed = true → ∀ i, h.size i = f) :
-    ∀ (es : List IfaceEntry) (fs : Nat), pe ∈ es → (∀ x ∈ es, x.rank = q → x = pe) → pe.rank = q →
+theorem find_peer_trackers (h : Handle α) (fwd : Bool) (q f : Nat) (pe : IfaceEntry) :
+    ∀ (es : List IfaceEntry) (fs : Nat), (h.fixed = true → ∀ x ∈ es, ∀ i ∈ x.send fwd, h.size i = f) →
+      pe ∈ es → (∀ x ∈ es, x.rank = q → x = pe) → pe.rank = q →
       (h.fixed = true → fs = 1 ∨ fs = f) →
       ∃ ts : Tracker × Tracker,
         ((setupTrackersLoop h fwd es fs).zip es).find? (fun x => x.2.rank == q) = some (ts, pe) ∧
         (h.fixed = true → (ts.1.fixedSize = 1 ∨ ts.1.fixedSize = f) ∧ (pe.send fwd ≠ [] → ts.1.fixedSize = f)) := by
   intro es
   induction es with
-  | nil => intro fs hmem; simp at hmem
+  | nil => intro fs _ hmem; simp at hmem
   | cons x es ih =>
-    intro fs hmem huniq hrank hfs
+    intro fs hfix hmem huniq hrank hfs
     -- the value of `fixedsize` after looking at x
     have hnew : h.fixed = true →
         ((match x.send fwd with | i :: _ => h.size i | [] => fs) = 1 ∨
@@ -23,7 +23,9 @@ theorem find_peer_trackers (h : Handle α) (fwd : Bool) (q f : Nat) (pe : IfaceE
       intro hx
       cases hs : x.send fwd with
       | nil => exact ⟨hfs hx, fun hne => absurd rfl hne⟩
-      | cons i is => exact ⟨Or.inr (hfix hx i), fun _ => hfix hx i⟩
+      | cons i is =>
+        have hi : h.size i = f := hfix hx x (by simp) i (by rw [hs]; simp)
+        exact ⟨Or.inr hi, fun _ => hi⟩
     by_cases hxq : x.rank = q
     · have hxe : x = pe := huniq x (by simp) hxq
       subst hxe
@@ -46,7 +48,7 @@ theorem find_peer_trackers (h : Handle α) (fwd : Bool) (q f : Nat) (pe : IfaceE
           (if h.fixed then (match x.send fwd with | i :: _ => h.size i | [] => fs) else fs) = f) := by
         intro hx
         simpa [hx] using (hnew hx).1
-      obtain ⟨ts, h1, h2⟩ := ih _ hmem' (fun y hy => huniq y (by simp [hy])) hrank hfs'
+      obtain ⟨ts, h1, h2⟩ := ih _ (fun hx y hy => hfix hx y (by simp [hy])) hmem' (fun y hy => huniq y (by simp [hy])) hrank hfs'
       refine ⟨ts, ?_, h2⟩
       have hb : (x.rank == q) = false := by simpa using hxq
       simp only [setupTrackersLoop, List.zip_cons_cons, List.find?_cons, hb]
